@@ -8,6 +8,7 @@ from .. import sym as S
 from ..core import AnalysisError, Collector
 from ..refterms import RefModel
 from .c04 import model
+from .common import sctx
 
 PROP = "C06"
 FLOORS = {"C06.R1": 10, "C06.R2": 5, "C06.R3": 3, "C06.R4": 20, "C06.R5": 10, "C06.R6": 3}
@@ -250,7 +251,39 @@ def _hash_only_from_cinit(col, rule="C06.R4"):
             "kept from another object, makes equal paths hash differently)", str(sorted(set(others))))
 
 
+def _call_arguments_with_repr(col, rule="C06.R2"):
+    """CallRef.__repr__ is what == compares, __cinit__ hashes the arguments themselves: a literal argument must print with repr
+    (str would make f.g(a, '2') and f.g(a, 2) equal with different hashes)"""
+    sx = sctx(col.repo, "CallRef", "__repr__")
+    rets = sx.of_kind("return")
+    if not rets:
+        raise AnalysisError("CallRef.__repr__: no return -- cannot decide")
+    ARGS, KW = ("elem", S.sattr("_args")), ("elem", S.sattr("_kwargs"))
+    values = {"positional argument": (ARGS,), "keyword argument value": (("item", KW, 1), ("val", S.sattr("_kwargs")))}
+    for what, forms in values.items():
+        good, bad = [], []
+        for r in rets:
+            seen_in_repr = set()
+            for t in S.subterms(r.value):
+                if S.is_call_of(t, ("glob", "repr")) and len(t[2]) == 1 and t[2][0] in forms:
+                    good.append(t)
+                    seen_in_repr.add(id(t[2][0]))
+                elif t[:1] == ("fmt",) and t[2] in forms:
+                    (good if t[1] == "!r" else bad).append(t)
+                elif S.is_call_of(t, ("glob", "str")) and len(t[2]) == 1 and t[2][0] in forms:
+                    bad.append(t)
+                elif S.is_call_of(t, meth="join") and any(a in forms for a in t[2]):
+                    bad.append(t)
+        if not good and not bad:
+            raise AnalysisError(f"CallRef.__repr__: how a {what} is printed is not recognised -- cannot decide")
+        col.add(rule, f"CallRef.__repr__#{what.replace(' ', '-')}-printed-with-repr", not bad, sx.loc(rets[0]),
+                f"a {what} that is not a reference prints as repr() of it, so that different literals print differently",
+                "; ".join(S.show(b)[:60] for b in bad) or "repr")
+
+
 def check(col: Collector):
+    with col.rule():
+        _call_arguments_with_repr(col)
     with col.rule():
         _hash_only_from_cinit(col)
     with col.rule():
